@@ -131,6 +131,29 @@ def gen_dhcp():
                 "pool.rs", lambda m: rust_int(m.group(1)))
     maxl = grab("dhcp.DEFAULT_MAX_LEASE", pool, r"DEFAULT_MAX_LEASE\s*:\s*std::time::Duration\s*=\s*std::time::Duration::from_secs\(([0-9_]+)\)",
                 "pool.rs", lambda m: rust_int(m.group(1)))
+    cfgsrc = strip_comments(read(os.path.join(CORE, "dhcp/config.rs")))
+    bdc = fn_body(mod, "build_default_config")
+    # (1..((1 << (32 - p4.prefixlen)) - K))
+    defk = grab("dhcp.defaultRangeUpperMinus", bdc,
+                r"\(\s*1\s*\.\.\s*\(\s*\(\s*1\s*<<\s*\(\s*32\s*-\s*p4\.prefixlen\s*\)\s*\)\s*-\s*([0-9]+)\s*\)\s*\)\s*\.map",
+                "dhcp/mod.rs build_default_config", lambda m: int(m.group(1)))
+    # for i in 1..(((1 << (32 - subnet.prefixlen)) - A) - B)   or   1..((1 << ..) - A)
+    pp = fn_body(cfgsrc, "parse_policy")
+    subk = grab("dhcp.applySubnetUpperMinus", pp,
+                r"for\s+i\s+in\s+1\s*\.\.\s*\(+\s*1\s*<<\s*\(\s*32\s*-\s*subnet\.prefixlen\s*\)\s*\)\s*((?:-\s*[0-9]+\s*\)?\s*)+)\{",
+                "dhcp/config.rs parse_policy apply-subnet", lambda m: sum(int(x) for x in re.findall(r"[0-9]+", m.group(1))))
+    rng = grab("dhcp.applyRangeInclusive", pp, r"for\s+i\s+in\s+u32::from\(start\)\s*\.\.=\s*u32::from\(end\)", "dhcp/config.rs parse_policy apply-range", lambda m: True)
+    hd = fn_body(mod, "handle_discover")
+    offer51 = grab("dhcp.offerHasLeaseTime", hd, r"OPTION_LEASETIME", "dhcp/mod.rs handle_discover", lambda m: True)
+    if offer51 is None:
+        status["dhcp.offerHasLeaseTime"] = {"ok": True, "value": False, "where": "dhcp/mod.rs handle_discover"}
+    hp = fn_body(mod, "handle_pkt")
+    arms = grab("dhcp.dispatchArms", hp, r"match\s+request\.pkt\.options\.get_messagetype\(\)\s*\{(.*)\}\s*\}\s*$", "dhcp/mod.rs handle_pkt",
+                lambda m: re.findall(r"Some\(dhcppkt::(DHCP[A-Z]+)\)\s*=>\s*\{[^}]*?(handle_[a-z]+)\(", m.group(1)))
+    arms_ok = arms == [("DHCPDISCOVER", "handle_discover"), ("DHCPREQUEST", "handle_request")]
+    rest_ok = bool(hp and re.search(r"Some\(x\)\s*=>\s*Err\(DhcpError::UnknownMessageType\(x\)\)", hp)
+                   and re.search(r"None\s*=>\s*Err\(DhcpError::ParseError\(", hp))
+    status["dhcp.dispatchArms"] = {"ok": bool(arms_ok and rest_ok), "value": arms, "where": "dhcp/mod.rs handle_pkt"}
     out = f"""/- GENERATED by tools/extract.py from {REPO} — do not edit. -/
 namespace Erbium.Generated.Dhcp
 
@@ -148,6 +171,17 @@ deriving DecidableEq, Repr
 def dstCondIsBroadcastFlag : Bool := {boolean(cond_ok)}
 def dstThen : DstExpr := .{classify(dst[1] if dst else None)}
 def dstElse : DstExpr := .{classify(dst[2] if dst else None)}
+
+/-- `build_default_config`: host offsets are `1..((1 << (32-len)) - k)` (exclusive upper bound) -/
+def defaultRangeUpperMinus : Nat := {nat(defk, "99")}
+/-- `apply-subnet`: host offsets are `1..((1 << (32-len)) - k)` (exclusive upper bound) -/
+def applySubnetUpperMinus : Nat := {nat(subk, "99")}
+/-- `apply-range` iterates `start..=end` -/
+def applyRangeInclusive : Bool := {boolean(rng)}
+/-- `handle_discover` sets option 51 (lease time) on the OFFER -/
+def offerHasLeaseTime : Bool := {boolean(offer51)}
+/-- `handle_pkt` dispatches DISCOVER -> handle_discover, REQUEST -> handle_request, everything else -> error -/
+def dispatchOk : Bool := {boolean(arms_ok and rest_ok)}
 
 def defaultMinLease : Nat := {nat(minl)}
 def defaultMaxLease : Nat := {nat(maxl)}
